@@ -54,6 +54,17 @@ def cases(tier: str, seed: int) -> List[Dict[str, Any]]:
         for dt in ("float16", "bfloat16", "float64"):
             for sr in (2, 5):
                 out.append({"E": E, "M": M, "srbits": sr, "tier": tier, "seed": seed, "dtype": dt})
+    # saturation under stochastic rounding (inputs beyond +-max clamp to +-max for EVERY draw), also with another
+    # process default dtype; and results never alias the input, an earlier result, or a per-format buffer
+    for E in range(2, 8):
+        for M in (0, 1, 2, 3, 8, 10):
+            for sr in (1, 3):
+                if sr < 23 - M:
+                    for dd in (None, "bfloat16", "float16", "float64"):
+                        out.append({"E": E, "M": M, "srbits": sr, "kind": "saturate", "default_dtype": dd, "seed": seed})
+    for E, M in ((4, 3), (5, 2), (2, 1), (5, 10)):
+        for sr in (0, 3):
+            out.append({"E": E, "M": M, "srbits": sr, "kind": "alias", "seed": seed})
     # ambient autograd mode (quantisation inside autograd.Function bodies and evaluation loops runs with grad
     # mode off) and an input that requires grad: the distribution is the same
     for E, M in ((4, 3), (5, 2), (2, 1), (3, 4), (5, 10), (7, 0)):
@@ -134,6 +145,52 @@ def run_case(case: Dict[str, Any]) -> Dict[str, Any]:
     if case.get("grad_mode"):
         tag += f"|{case['grad_mode']}"
     real_randint = torch.randint
+
+    if case.get("kind") == "saturate":
+        mx = fp.max_value(E, M)
+        vals = [mx * (1 + 2.0 ** -(M + 1)), mx * (1 + 2.0 ** -(M + 2)), mx * 1.5, mx * 2, mx * 2.0 ** 20, 3e38, float("inf")]
+        xs = torch.tensor([v for v in vals if v == float("inf") or v < 3.4e38], dtype=torch.float32)
+        xs = torch.cat([xs, -xs])
+        D = 2**nbits
+        xr = xs[:, None].expand(xs.numel(), D).contiguous()
+
+        def enum_s(low: int, high: int, size: Any, **kw: Any) -> Any:
+            return torch.arange(D, dtype=kw.get("dtype", torch.int64))[None, :].expand(xs.numel(), D).contiguous()
+
+        old_dd = torch.get_default_dtype()
+        try:
+            if case.get("default_dtype"):
+                torch.set_default_dtype(getattr(torch, case["default_dtype"]))
+            with mock.patch.object(torch, "randint", enum_s):
+                q = fmt.quantise(xr)
+        except Exception as e:  # noqa
+            return {"violations": [exception_violation(e, tag + "|saturate")], "steps": 1, "outcome": "raises"}
+        finally:
+            torch.set_default_dtype(old_dd)
+        want = torch.where(xs > 0, torch.tensor(mx), torch.tensor(-mx)).to(torch.float64)[:, None]
+        bad = (q.to(torch.float64) != want).any(1)
+        if bool(bad.any()):
+            i = int(bad.nonzero()[0, 0])
+            viol.append({"key": f"{tag}|saturation|default_dtype={case.get('default_dtype')}", "msg":
+                         f"E{E}M{M} srbits={nbits}: x={xs[i].item()!r} gives {sorted(set(q[i].tolist()))[:4]}, expected {want[i, 0].item()!r} for every draw"})
+        return {"violations": viol, "steps": xs.numel() * D, "n_states": xs.numel() * D, "nontrivial": True, "outcome": "saturate"}
+
+    if case.get("kind") == "alias":
+        g = torch.Generator().manual_seed(5)
+        for shape in ((7,), (3, 5)):
+            a = torch.randn(shape, generator=g)
+            b = torch.randn(shape, generator=g) * 3
+            torch.manual_seed(1)
+            q1 = fmt.quantise(a)
+            keep = q1.clone()
+            q2 = fmt.quantise(b)
+            q3 = FPFormat(E, M, rounding="stochastic", srbits=case["srbits"]).quantise(b * 0.5)
+            if not torch.equal(q1, keep):
+                viol.append({"key": f"{tag}|earlier_result_overwritten", "msg": f"E{E}M{M}: quantise(a) changed after quantise(b) on the same format object"})
+            ptrs = [t.untyped_storage().data_ptr() for t in (a, b, q1, q2, q3)]
+            if len(set(ptrs)) != len(ptrs):
+                viol.append({"key": f"{tag}|result_shares_storage", "msg": f"E{E}M{M}: storages of (a, b, q(a), q(b), q'(b/2)) = {ptrs}"})
+        return {"violations": viol[:2], "steps": 6, "n_states": 6, "nontrivial": True, "outcome": "alias"}
 
     if case.get("kind") == "indep":
         # the real random source is used, but intercepted: one draw per element must be requested
